@@ -81,6 +81,9 @@ def h_rolling(ctx):
         ctx.assume(s <= no)
         region = (w, ee, s, no)
         kw["region"] = region
+        if cfg.get("region_array"):
+            # the region handed over as an array (and used again afterwards by the caller)
+            kw["region"] = np.array(region, dtype=object) if ctx.sym else np.array([float(v) for v in region])
     else:
         region = vc.get_region((e, n))
     gkw = {}
@@ -112,6 +115,10 @@ def h_rolling(ctx):
         ctx.claim("rejected only when the window is larger than the region", rej)
         return
     ctx.claim("accepted only when the window fits in the region", And(ge(minwidth, size), ge(mw2, size)))
+    if cfg.get("region_array"):
+        ctx.claim("a region given as an array is left as it was", And([eq(a, b) for a, b in zip(kw["region"], region)]))
+        again = vc.rolling_window((e, n, x), size, **kw, **gkw)
+        ctx.claim("a second call with the same region array gives the same centres", And(np.shape(again[0][0]) == np.shape(centers[0]), And([eq(a, b) for a, b in zip(np.ravel(again[0][0]), np.ravel(centers[0]))] + [eq(a, b) for a, b in zip(np.ravel(again[0][1]), np.ravel(centers[1]))]) if np.shape(again[0][0]) == np.shape(centers[0]) else False))
     shrunk = (region[0] + size * HALF, region[1] - size * HALF, region[2] + size * HALF, region[3] - size * HALF)
     ref = vc.grid_coordinates(shrunk, **gkw)
     ctx.claim("centres form the regular grid of the region shrunk by half a window", And(len(centers) == 2, centers[0].shape == ref[0].shape, centers[1].shape == ref[1].shape))
@@ -211,6 +218,7 @@ def _cfg_rolling(tier, seed):
         {"pshape": (1, 2), "region": "given", "shape": (2, 1)},
         {"pshape": (1,), "region": "given", "maxq": "1", "adjust": "spacing", "spacing2": True},
         {"pshape": (2,), "region": "inferred", "maxq": "1", "adjust": "spacing"},
+        {"pshape": (1,), "region": "given", "shape": (1, 2), "region_array": True},
     ]
     if tier == "quick":
         return q
